@@ -157,7 +157,7 @@ func Verif_C12_Attribution(k int) {
 		if fl.trailing {
 			verifsym.Assert(len(cm) == 1 && cm[0] == "t"+vNum(i), "Comment is not exactly the trailing comment on the declaration's line")
 		} else {
-			verifsym.Assert(len(cm) == 0 || (fl.doc != 1 && false), "a declaration without trailing comment gets one")
+			verifsym.Assert(len(cm) == 0, "a declaration without trailing comment gets one")
 		}
 		verifsym.Observe("doc", doc)
 		verifsym.Observe("comment", cm)
